@@ -356,7 +356,7 @@ func (e *Exec) run(c Call) *Event {
 	ev := &Event{Call: c, Tr: e.tr, I: e.idx, Post: []SlotAtoms{}, Bad: []SlotMsg{}, Rep: []SlotRep{}, Bufch: []int{}, Aux: true, Argok: true, Alias: [][2]int{}, Probe: []ProbeRec{}}
 	var targets []int
 	e.obs = e.obs[:0]
-	isPar := strings.HasPrefix(c.Op, "Par")
+	isPar := strings.HasPrefix(c.Op, "Par") || c.Op == "ConcLoad"
 	g0 := 0
 	if isPar {
 		g0 = runtime.NumGoroutine()
@@ -366,8 +366,8 @@ func (e *Exec) run(c Call) *Event {
 		go func() { // watchdog: a parallel aggregate that never returns is reported, not waited for
 			select {
 			case <-done:
-			case <-time.After(120 * time.Second):
-				ev.Panic = "hang: no return within 120s"
+			case <-time.After(40 * time.Second):
+				ev.Panic = "hang: no return within 40s"
 				e.emit(ev)
 				e.w.Flush()
 				os.Exit(0)
